@@ -23,9 +23,11 @@ func (n NativeClockFn) String() string {
 	return "<native fn>"
 }
 
-// stdinReader is shared by every `input` call: a reader created per call would
-// throw away whatever it had buffered beyond the first line.
-var stdinReader = bufio.NewReader(os.Stdin)
+// Stdin is the one buffered reader on standard input. It is shared by every
+// `input` call (a reader created per call would throw away whatever it had
+// buffered beyond the first line) and by the interactive prompt in main.go (two
+// readers on the same descriptor steal each other's lines).
+var Stdin = bufio.NewReader(os.Stdin)
 
 // NativeInputFn defines the native `input` function for the interpreter.
 type NativeInputFn struct{}
@@ -55,7 +57,7 @@ func (n NativeInputFn) Call(i *Interpreter, arguments []interface{}) (interface{
 	}
 
 	// Read the input from the user
-	input, err := stdinReader.ReadString('\n')
+	input, err := Stdin.ReadString('\n')
 	if err != nil && !(err == io.EOF && input != "") {
 		// A last line without a trailing newline is still a line.
 		return nil, fmt.Errorf("failed to read input: %v", err)
